@@ -218,19 +218,40 @@ var crossCallAllowed = map[string]map[string]stateField{
 	},
 }
 
+// ruleCrossCallStateEngine: the template engine (C16, C17).  `cache` is the published template table
+// (guarded by the mutex, decided by the lock rule); anything else that survives from one render
+// or load to the next — a memo of resolved or rendered text — must be invalidated by every
+// operation that changes its inputs, which no structural rule here can show; it is reported.
+func ruleCrossCallStateEngine(r *Run) {
+	crossCallAllowed["document.TemplateEngine"] = map[string]stateField{
+		"cache":    {Reason: "the table of loaded templates; access discipline is decided by the lock rule"},
+		"basePath": {Reason: "configuration set by SetBasePath"},
+		"mutex":    {Reason: "the lock itself"},
+	}
+	crossCallGeneric(r, pkgDoc, "TemplateEngine", []string{"(*TemplateEngine).RenderToDocument", "(*TemplateEngine).RenderTemplateToDocument", "(*TemplateEngine).LoadTemplate", "(*TemplateEngine).LoadTemplateFromDocument"})
+}
+
 func ruleCrossCallState(typ, entry string) func(r *Run) {
-	return func(r *Run) {
+	return func(r *Run) { crossCallGeneric(r, pkgMd, typ, []string{entry}) }
+}
+
+func crossCallGeneric(r *Run, pkg, typ string, entries []string) {
+	{
 		p := r.P
-		pkg := pkgMd
 		named := p.Named(pkg, typ)
-		root := p.Func(pkg, entry)
-		if named == nil || root == nil {
-			r.Unresolved("markdown." + typ + " / " + entry)
+		var roots []*ssa.Function
+		for _, e := range entries {
+			if f := p.Func(pkg, e); f != nil {
+				roots = append(roots, f)
+			}
+		}
+		if named == nil || len(roots) == 0 {
+			r.Unresolved(typ + " / " + strings.Join(entries, ","))
 			return
 		}
 		st := named.Underlying().(*types.Struct)
-		reach := p.cgReach(root)
-		tname := "markdown." + typ
+		reach := p.cgReach(roots...)
+		tname := pkg[strings.LastIndex(pkg, "/")+1:] + "." + typ
 		nState := 0
 		for i := 0; i < st.NumFields(); i++ {
 			f := st.Field(i)
@@ -260,6 +281,21 @@ func ruleCrossCallState(typ, entry string) func(r *Run) {
 							}
 						case *ssa.UnOp:
 							accs = append(accs, acc{fn, x, false})
+							// a map (or slice) held in the field and updated in place
+							if x.Referrers() != nil {
+								for _, u2 := range *x.Referrers() {
+									switch y := u2.(type) {
+									case *ssa.MapUpdate:
+										if y.Map == ssa.Value(x) {
+											accs = append(accs, acc{fn, y, true})
+										}
+									case *ssa.Call:
+										if b, ok := y.Call.Value.(*ssa.Builtin); ok && (b.Name() == "delete" || b.Name() == "clear") && len(y.Call.Args) > 0 && y.Call.Args[0] == ssa.Value(x) {
+											accs = append(accs, acc{fn, y, true})
+										}
+									}
+								}
+							}
 						case ssa.CallInstruction:
 							// method call on the field's address (strings.Builder etc.): reads and writes
 							accs = append(accs, acc{fn, x, false}, acc{fn, x, true})
@@ -1974,4 +2010,192 @@ func withCallerControl(p *Program, sl *slicer, res *sliceRes, at ssa.Instruction
 		})
 	}
 	return res
+}
+
+// ---------------------------------------------------------------------------
+// R-COUNTER-MONOTONIC (C15, C10): the counters that hand out note, numbering and image ids must
+// never move backwards: an id that is still in use would be handed out again and the new entry
+// overwrites the live one in the registry map.  Outside constructors, clone functions and the
+// restore on Open, the only store to such a counter is `counter = counter + constant`.
+// ---------------------------------------------------------------------------
+
+var idCounters = map[string][]string{
+	"FootnoteManager":  {"nextFootnoteID", "nextEndnoteID"},
+	"NumberingManager": {"nextAbstractNumID", "nextNumID"},
+	"Document":         {"nextImageID"},
+}
+
+func ruleCounterMonotonic(owners ...string) func(r *Run) {
+	return func(r *Run) {
+		p := r.P
+		clones := map[*ssa.Function]bool{}
+		for _, c := range discoverClones(p, pkgDoc) {
+			clones[c.Fn] = true
+		}
+		n := 0
+		for _, fn := range p.ModFuncs() {
+			if fn.Pkg == nil || fn.Pkg.Pkg.Path() != pkgDoc {
+				continue
+			}
+			idx := 0
+			allInstrs(fn, func(in ssa.Instruction) {
+				st, ok := in.(*ssa.Store)
+				if !ok {
+					return
+				}
+				fv, base := fieldOfAddr(st.Addr)
+				if fv == nil {
+					return
+				}
+				o := fieldOwner(p, fv)
+				if o == nil {
+					return
+				}
+				isCounter := false
+				for _, ow := range owners {
+					if o.Obj().Name() != ow {
+						continue
+					}
+					for _, c := range idCounters[ow] {
+						if c == fv.Name() {
+							isCounter = true
+						}
+					}
+				}
+				if !isCounter {
+					return
+				}
+				// initialisation of an object created here (constructor, clone, lazily created manager)
+				if _, fresh := stripLoads(base).(*ssa.Alloc); fresh {
+					return
+				}
+				top := topLevel(fn)
+				if clones[top] || isDocConstructor(top) {
+					return
+				}
+				// the restore of the image counter on Open is decided by counter-numeric / fresh-dep
+				if fv.Name() == "nextImageID" {
+					if open := p.Func(pkgDoc, "openFromZipReader"); open != nil {
+						for _, g := range helperGroup(p, open) {
+							if g == top {
+								return
+							}
+						}
+					}
+				}
+				n++
+				idx++
+				inc := false
+				if bo, ok := st.Val.(*ssa.BinOp); ok && bo.Op == token.ADD {
+					if c, isC := constInt(bo.Y); isC && c > 0 {
+						if ld, ok := bo.X.(*ssa.UnOp); ok && ld.Op == token.MUL && pathString(ld.X) == pathString(st.Addr) {
+							inc = true
+						}
+					}
+				}
+				r.Check("counter-monotonic", fmt.Sprintf("%s:%s.%s#%d", shortName(top), o.Obj().Name(), fv.Name(), idx), st.Pos(), inc,
+					fmt.Sprintf("%s assigns the id counter %s.%s %s", shortName(top), o.Obj().Name(), fv.Name(), map[bool]string{true: "its own value plus a positive constant", false: "a value that is not counter+constant (" + symOfExpr(st.Val) + "): the counter can move backwards, an id still in use is handed out again and the new entry replaces the live one"}[inc]))
+			})
+		}
+		r.Min("id_counter_updates", n, 2)
+	}
+}
+
+func symOfExpr(v ssa.Value) string {
+	if in, ok := v.(ssa.Instruction); ok {
+		return in.String()
+	}
+	return v.String()
+}
+
+// ---------------------------------------------------------------------------
+// R-CODE-VERBATIM (C19): the lines of a code block are taken from the source as they are.  The
+// function that extracts them must not pass the text through anything that removes leading
+// whitespace (TrimSpace, TrimLeft, Trim, Fields): indentation is content in a code block.
+// ---------------------------------------------------------------------------
+
+func ruleCodeVerbatim(r *Run) {
+	p := r.P
+	fn := r.mustFunc(pkgMd, "(*WordRenderer).extractCodeBlockLines")
+	if fn == nil {
+		return
+	}
+	bad := ""
+	allInstrs(fn, func(in ssa.Instruction) {
+		c, ok := in.(ssa.CallInstruction)
+		if !ok {
+			return
+		}
+		switch calleeName(c) {
+		case "strings.TrimSpace", "strings.TrimLeft", "strings.Trim", "strings.TrimLeftFunc", "strings.TrimFunc", "strings.Fields", "bytes.TrimSpace", "bytes.TrimLeft", "bytes.Trim", "strings.TrimPrefix":
+			bad = calleeName(c) + " at " + p.pos(c.Pos())
+		}
+	})
+	r.Check("code-verbatim", shortName(fn), fn.Pos(), bad == "",
+		fmt.Sprintf("%s %s", shortName(fn), map[bool]string{true: "takes the code lines from the source without removing leading whitespace", false: "passes the code text through " + bad + ": the indentation of the first line (and blank lines at the edges) of a code block is lost"}[bad == ""]))
+}
+
+// ---------------------------------------------------------------------------
+// R-TOKEN-AGREEMENT (C16): the loop opener is recognised in two places of the nested-loop
+// expansion: where the block header is matched and where nested openers are counted to find the
+// matching {{/each}}.  Both must use the same recogniser (the compiled pattern).  A second,
+// hand-written recogniser (strings.Index with "{{#each ") disagrees with the pattern on
+// `{{#each<TAB>x}}` and on literal text such as "{{#each item in list}}".
+// ---------------------------------------------------------------------------
+
+func ruleTokenAgreement(r *Run) {
+	p := r.P
+	n := 0
+	for _, fn := range p.ModFuncs() {
+		if fn.Pkg == nil || fn.Pkg.Pkg.Path() != pkgDoc || fn.Parent() != nil {
+			continue
+		}
+		// functions that match a compiled pattern containing a block opener
+		usesPattern := map[string]bool{}
+		for _, g := range withClosures(fn) {
+			allInstrs(g, func(in ssa.Instruction) {
+				c, ok := in.(*ssa.Call)
+				if !ok || calleeName(c) != "regexp.MustCompile" || len(c.Call.Args) == 0 {
+					return
+				}
+				if pat, ok := constString(c.Call.Args[0]); ok {
+					for _, d := range []string{"#each", "#if", "#block"} {
+						if strings.Contains(pat, d) {
+							usesPattern[d] = true
+						}
+					}
+				}
+			})
+		}
+		if len(usesPattern) == 0 {
+			continue
+		}
+		n++
+		bad := ""
+		for _, g := range withClosures(fn) {
+			allInstrs(g, func(in ssa.Instruction) {
+				c, ok := in.(*ssa.Call)
+				if !ok {
+					return
+				}
+				switch calleeName(c) {
+				case "strings.Index", "strings.Contains", "strings.HasPrefix", "strings.LastIndex", "strings.Count", "strings.Split", "strings.SplitN", "strings.Cut":
+				default:
+					return
+				}
+				for _, a := range c.Call.Args[1:] {
+					if s, ok := constString(a); ok {
+						for d := range usesPattern {
+							if strings.Contains(s, "{{"+d) {
+								bad = fmt.Sprintf("%s(…, %q) at %s", calleeName(c), s, p.pos(c.Pos()))
+							}
+						}
+					}
+				}
+			})
+		}
+		r.Check("token-agreement", shortName(fn), fn.Pos(), bad == "",
+			fmt.Sprintf("%s recognises block openers with a compiled pattern%s", shortName(fn), map[bool]string{true: " only", false: " and, separately, with " + bad + ": the two recognisers accept different spellings, so nesting is miscounted for openers only one of them accepts"}[bad == ""]))
+	}
+	r.Min("functions_matching_block_openers", n, 3)
 }
